@@ -6,6 +6,7 @@ use crate::security::*;
 use crate::tables::{BlockEntry, HashEntry, HashTable};
 use crate::*;
 use crate::crypto::*;
+use crate::path::plain_file_name;
 use byteorder::{LittleEndian, ReadBytesExt};
 use std::io::Cursor;
 
@@ -387,8 +388,10 @@ fn u02_3_table_keys_are_the_published_ones() {
 #[kani::unwind(8)]
 #[kani::stub(alloc::fmt::format, stub_format)]
 fn u02_3_reader_file_key_formula() {
-    let name = "a\\b.c";
-    let base = hash_string(name, hash_type::FILE_KEY);
+    // published format: the base key is the hash of the PLAIN name (after the last separator of either kind);
+    // the reader is handed the caller's spelling, here with a forward slash
+    let name = "a/b.c";
+    let base = hash_string("b.c", hash_type::FILE_KEY);
     let flags: u32 = kani::any();
     let archive_offset: u64 = kani::any();
     let rel: u64 = kani::any();
@@ -482,4 +485,34 @@ fn u02_5_header_read_layout() {
         }
         Err(e) => core::mem::forget(e),
     }
+}
+
+
+// ------------------------------------------------------------------------------------ U06.4 editor file key (F29)
+// MutableArchive::prepare_file_data: the key an added file is encrypted with is the published one for the flags the block
+// entry receives - hash of the plain name, adjusted by (key + position) ^ uncompressed size exactly when FIX_KEY is set.
+// @harness unit=U06.4 props=C06,C02 kind=complete timeout=600 target="modification.rs: prepare_file_data key statements + flag statements (E11 blocks), all positions / lengths <= 3 / option values; name fixed" oracle=mod_options
+#[kani::proof]
+#[kani::unwind(8)]
+#[kani::stub(alloc::fmt::format, stub_format)]
+fn u06_4_editor_file_key_formula() {
+    let name = "a\\b.c";
+    let base = hash_string("b.c", hash_type::FILE_KEY);
+    let mut o = crate::modification::AddFileOptions::new();
+    o.fix_key = kani::any();
+    o.encrypt = true;
+    let pos: u32 = kani::any();
+    let data: [u8; 3] = kani::any();
+    let n: usize = kani::any();
+    kani::assume(n <= 3);
+    let key = blk_editor_file_key(name, &o, pos, &data[..n]);
+    let flags0: u32 = kani::any();
+    kani::assume(flags0 & (BlockEntry::FLAG_ENCRYPTED | BlockEntry::FLAG_FIX_KEY) == 0);
+    let flags = blk_editor_key_flags(&o, flags0);
+    assert!(flags & BlockEntry::FLAG_ENCRYPTED != 0, "ENCRYPTED set");
+    assert!((flags & BlockEntry::FLAG_FIX_KEY != 0) == o.fix_key, "FIX_KEY iff requested");
+    assert!(flags & !(BlockEntry::FLAG_ENCRYPTED | BlockEntry::FLAG_FIX_KEY) == flags0, "no other flag touched");
+    let want = if flags & BlockEntry::FLAG_FIX_KEY != 0 { base.wrapping_add(pos) ^ (n as u32) } else { base };
+    assert!(key == want, "key = hash(plain name), adjusted as (key + position) ^ uncompressed size exactly when the FIX_KEY flag is written");
+    core::mem::forget(o);
 }
